@@ -8,7 +8,7 @@ CONSTANTS
   MaxFrames = 1
   Kinds = {"arr", "map"}
   MaxLeak = 1
-  MapRemoveDropsFirst = FALSE
+  MapRemoveDropsFirst = TRUE
   BugAppend = FALSE
   BugRemGuard = FALSE
 INVARIANTS TypeOK WalkedOK AbsCount RcExact RcSane
